@@ -75,10 +75,20 @@ func genAtomic(r *core.Rand, tier string) *atomicCase {
 		maxOps = 70
 	}
 	nops := r.Range(3, maxOps)
-	mkDoc := func(slot int, fail int) atomicCmd {
+	lastDoc := map[int]atomicCmd{}
+	mkDoc := func(slot int, fail int) (cmd atomicCmd) {
+		if prev, ok := lastDoc[slot]; ok && fail == 0 && r.Chance(0.2) {
+			// update with unchanged content (same vector, text and metadata as before)
+			return atomicCmd{Slot: slot, Vec: prev.Vec, Text: prev.Text, Meta: prev.Meta}
+		}
 		version[slot]++
 		ver := version[slot]
-		cmd := atomicCmd{Slot: slot}
+		cmd = atomicCmd{Slot: slot}
+		defer func() {
+			if fail == 0 {
+				lastDoc[slot] = cmd
+			}
+		}()
 		if r.Chance(0.85) || fail == 1 {
 			v := make([]float32, c.Dim)
 			for j := range v {
@@ -111,7 +121,7 @@ func genAtomic(r *core.Rand, tier string) *atomicCase {
 				cmd.Meta = append(cmd.Meta, atomicKV{K: "flag", V: fmt.Sprint(ver%2 == 0), Kind: "bool"})
 			}
 			if fail == 3 {
-				bad := atomicKV{K: "zbad", V: "!", Kind: "bad"}
+				bad := atomicKV{K: "zbad", V: "!", Kind: []string{"bad", "bad_f32", "bad_i32", "bad_u", "bad_nil", "bad_map"}[r.Intn(6)]}
 				i := r.Intn(len(cmd.Meta) + 1)
 				cmd.Meta = append(cmd.Meta[:i], append([]atomicKV{bad}, cmd.Meta[i:]...)...)
 			}
@@ -223,6 +233,16 @@ func metaValue(kv atomicKV) interface{} {
 		return kv.V == "true"
 	case "bad":
 		return []int{1, 2}
+	case "bad_f32":
+		return float32(1.5)
+	case "bad_i32":
+		return int32(7)
+	case "bad_u":
+		return uint(7)
+	case "bad_nil":
+		return nil
+	case "bad_map":
+		return map[string]int{"a": 1}
 	default:
 		return kv.V
 	}
@@ -367,6 +387,12 @@ func execAtomic(c *atomicCase) []string {
 					out = hitsLine(sres)
 				}
 				lines = append(lines, fmt.Sprintf("op probevec s %s => %s", core.VecHex(q), out))
+				// an id stored twice shows as sum != max aggregation of its per-entry scores
+				mres, err2 := vec.NewSearch().WithQuery(append([]float32(nil), q...)).WithK(bigK).WithNProbes(c.NList + 5).
+					WithScoreAggregation(comet.MaxAggregation).Execute()
+				if err == nil && err2 == nil {
+					lines = append(lines, fmt.Sprintf("op probedup %s | %s => ok", strings.TrimPrefix(hitsLine(sres), "ok"), strings.TrimPrefix(hitsLine(mres), "ok")))
+				}
 			}
 		case "ptxt":
 			hres, err := idx.NewSearch().WithText(cmd.Word).WithK(bigK).Execute()
